@@ -156,12 +156,16 @@ def _arity(p, e, out):
         out.append(len(EXTS[x['name']][0]))
 
 
+def batch(progs):
+    """The JSON document TypeSem.tla loads: the programs plus the declarations of the external world."""
+    return dict(progs=progs, exts=[dict(name=k, res=v[0]) for k, v in sorted(EXTS.items())],
+                gvals=[dict(name=k, t=v) for k, v in sorted(GVALS.items())])
+
+
 def flatten(tree):
     fl = _Flat()
     fl.function('f', tree['params'], [], tree['body'], 0)
-    p = dict(names=fl.names, fns=fl.fns, nodes=fl.nodes, exprs=fl.exprs,
-             exts=[dict(name=k, res=v[0]) for k, v in sorted(EXTS.items())],
-             gvals=[dict(name=k, t=v) for k, v in sorted(GVALS.items())])
+    p = dict(names=fl.names, fns=fl.fns, nodes=fl.nodes, exprs=fl.exprs)
     for nm in GVALS:
         if nm not in p['names']:
             p['names'].append(nm)
